@@ -245,6 +245,14 @@ pub fn verify_totality<V: Fv>(seed: u64, thorough: bool, out: &mut Shards) {
             best = (rej, s);
         }
     }
+    for (i, tag) in crate::corpus::H2P_EXTREME.iter() {
+        let mut sigb = hsig.clone();
+        sigb[1..41].copy_from_slice(&crate::corpus::h2p_salt(*i));
+        let mut ev = decode_event::<V>("sig", &sigb, "verify-extreme-hash-stream");
+        ev["verify"] = json!(outcome(crate::corpus::H2P_MSG, &sigb));
+        ev["detail"] = json!(tag);
+        out.emit(ev);
+    }
     let mut sigb = hsig.clone();
     sigb[1..41].copy_from_slice(&best.1[..40]);
     let mut ev = decode_event::<V>("sig", &sigb, "verify-most-rejected-chunks");
